@@ -747,3 +747,28 @@ def c14(ctx):
     ws_judge(ctx, ws_gen(ctx, "corrupt", 5 if q else 7), "A", "C14")
     ctx.exhaustive = True
     ws_random(ctx, ("corrupt",), 8000 if q else 80000, "B", "C14", 2)
+
+
+# ---------------------------------------------------------------------------
+@prop("C16", "windows", "Trace_Windows")
+def c16(ctx):
+    q = ctx.quick()
+    mn = 3 if q else 4
+    ctx.rule = ("MC: the window stepping machine (Windows.tla) for all texts up to 5 characters with byte lengths 1..4 x max 0..9 x "
+                "context 0..3 x {char, byte}: partial tiling, context bound, full tiling at the end, failure only if a character is too "
+                "wide, termination; A: all texts up to %d characters over 6 slots (1-4 byte letters, an 8-byte flag cluster, e+combining "
+                "acute) x max 0..9 x context 0..3 x {char, byte, full} x both modes on the real windows(); B: random real texts up to 60 "
+                "characters. non-trivial = >=2 windows or an error" % mn)
+    ctx.assumptions = ["unicode-segmentation defines the characters and their byte lengths (trusted)",
+                       "the empty text (one empty window) is outside the property and skipped"]
+    cfg = ("CONSTANTS MaxN = 5 LenSet = {1,2,3,4} MaxMax = 9 MaxCtx = 3\nSPECIFICATION Spec\n"
+           "INVARIANTS PartialTiling ContextInv DoneInv FailOnlyIfTooWide\nPROPERTY Terminates\nCHECK_DEADLOCK FALSE\n")
+    vlib.mc(ctx, "Windows", cfg, name="Windows", workers=8)
+    gcfg = "CONSTANTS MaxN = %d MaxMax = 9 MaxCtx = 3\nINIT Init\nNEXT Next\nCHECK_DEADLOCK FALSE\n" % mn
+    cases, n = vlib.tlc_generate(ctx, "Gen_Windows", gcfg, "cases-a.ndjson")
+    keys = ["s", "kind", "g", "max", "ctx", "res", "wins"]
+    vlib.exec_and_judge(ctx, "windows", cases, "Trace_Windows", "A", sample_keys=keys)
+    ctx.exhaustive = True
+    rnd = ctx.path("cases-b.ndjson")
+    vlib.harness(["gen", "windows", ctx.seed, 5000 if q else 60000, rnd])
+    vlib.exec_and_judge(ctx, "windows", rnd, "Trace_Windows", "B", sample_keys=keys)
